@@ -90,5 +90,9 @@ def status_lines(stdout):
         elif l.startswith("[FAILED]") and out:
             out[-1][1] = "FAILED"
         elif l.startswith("[CANCELLED]") and out:
-            out[-1][1] = "CANCELLED"
+            if out[-1][1] is None or out[-1][0].startswith("|"):
+                out[-1][1] = "CANCELLED"
+            else:
+                # the previous file's report is already complete: this line reports on a file it does not name (defect D20, fixed)
+                out.append(["", "CANCELLED", l])
     return out
